@@ -268,6 +268,6 @@ Proof. intros H. unfold stop_subscribe_eventgroup. rewrite H. reflexivity. Qed.
 
 (* subscribe while alive: recorded and exactly one Subscribe deferred to the same loop turn *)
 Theorem subscribe_while_alive g ep w :
-  sub_alive w = true ->
+  sub_alive w = true -> requested g ep (sub_entries w) = false ->
   subscribe_eventgroup g ep w = call_soon (HSendStartSub ep [g]) (set_sub_entries (sub_entries w ++ [(g, ep)]) w).
-Proof. intros H. unfold subscribe_eventgroup. cbn. rewrite H. reflexivity. Qed.
+Proof. intros H Hr. unfold subscribe_eventgroup, note_dup, subscribe_core. rewrite Hr. cbn. rewrite H. reflexivity. Qed.
